@@ -25,9 +25,11 @@ from .common import Failure, f2h, h2f, parse_reply, vec
 
 ID = "C14"
 BIN = "c14"
-PROOF_MODULES = ["Compute.Props.C14"]
+PROOF_MODULES = ["Compute.Props.C14", "Compute.Props.C14Review"]
 REQUIRED_THEOREMS = ["Cv.C14.predict_spec", "Cv.C14.vandermonde_entry", "Cv.C14.fit_normal_equations",
-                     "Cv.C14.fit_orthogonal", "Cv.C14.fit_minimal", "Cv.C14.fit_reproduces"]
+                     "Cv.C14.fit_orthogonal", "Cv.C14.fit_minimal", "Cv.C14.fit_reproduces",
+                     "Cv.C14R.distinct_imp_xtx_det_ne_zero", "Cv.C14R.poly_fit_total_distinct", "Cv.C14R.fit_reproduces_distinct",
+                     "Cv.C14R.repeated_abscissa_singular"]
 RULE = ("degrees 0..6 x four abscissa layouts in [-2,2] (uniform, clustered, Chebyshev, integer/dyadic grid) x n from "
         "deg+1 to 2000 x responses = polynomial + noise at relative scales 0..1e6, exact-integer data, rank-deficient and "
         "mismatched inputs; replicated small-integer designs (levels in -3..3 with multiplicities, found by brute force) whose "
@@ -41,7 +43,11 @@ NOT_PROVED = [
     "to be discharged by the C01 inverse theorem",
 ]
 TRUSTED = ["Lean Float arithmetic = Rust f64 arithmetic (measured)", "powi = square-and-multiply (Cv.powi, measured)",
-           "Python fractions for the exact normal equations"]
+           "Python fractions for the exact normal equations",
+           "the source tie fit_eq (Props/SrcTieC14Mut) is against generated code that calls the MODEL's own vandermonde, xtx, "
+           "invertMatrix and matmul: it ties only the call chain of PolynomialRegressor::fit (argument order, transpose flags, "
+           "dimensions, the length assert, the state update), not those callees, which are tied by their own properties "
+           "(C05 matmul/xtx, C01 invert_matrix, C15 vandermonde) and by the bit-exact run-time correspondence"]
 ASSUMPTIONS = ["is_square uses an f32 square root: exact for the (deg+1)^2 <= 49-element matrices used here"]
 
 EPS = 2.0 ** -52
@@ -704,3 +710,14 @@ NOT_PROVED = list(NOT_PROVED) + ['floating-point rounding of the normal-equation
 # --- source tie (translator pass 5: PolynomialRegressor::fit as a whole function, Generated/SrcC14Mut.lean, Props/SrcTieC14Mut.lean)
 from . import srctie
 srctie.wire_mut(globals(), 'C14')
+
+# --- review fixes (C14 owner): wording of the claims wired above
+def _reword(x):
+    x = str(x)
+    x = x.replace("unconditionally for a non-singular normal matrix (exact arithmetic, via the proved LU/Cholesky solver correctness)",
+                  "without the inverse hypothesis, over an ordered field whose sqrt and abs are exact (e.g. the reals; not Q), for a "
+                  "non-singular normal matrix (poly_fit_total), and Props/C14Review derives non-singularity from the property's own "
+                  "hypothesis of at least degree+1 distinct abscissae (distinct_imp_xtx_det_ne_zero, poly_fit_total_distinct, "
+                  "fit_reproduces_distinct; instantiated over R)")
+    return x
+NOT_PROVED = [_reword(x) for x in NOT_PROVED]
